@@ -150,10 +150,58 @@ func checkC14(c *Ctx, r *Result, tier string) {
 	}
 	// the string runtime: Eval methods of runtime components which call the parser
 	var targets []*ssa.Function
-	for _, fn := range c.Implementations(rtIface, "Eval") {
-		if len(callSites(fn, func(name string, _ ssa.CallInstruction) bool {
+	// helpers of package interpreter that parse one of their string parameters: function -> parameter index
+	parseHelpers := map[*ssa.Function]int{}
+	for _, h := range c.ModFuncs() {
+		if c.PkgOf(h) != "interpreter" || h.Parent() != nil {
+			continue
+		}
+		for _, pc := range callSites(h, func(name string, _ ssa.CallInstruction) bool {
 			return strings.HasSuffix(name, "parser.ParseWithRuntime") || strings.HasSuffix(name, "parser.Parse")
-		})) > 0 {
+		}) {
+			if len(pc.Common().Args) >= 2 {
+				if prm, ok := unspill(pc.Common().Args[1]).(*ssa.Parameter); ok {
+					for i, p := range h.Params {
+						if p == prm {
+							parseHelpers[h] = i
+						}
+					}
+				}
+			}
+		}
+	}
+	isParseSite := func(name string, ci ssa.CallInstruction) bool {
+		if strings.HasSuffix(name, "parser.ParseWithRuntime") || strings.HasSuffix(name, "parser.Parse") {
+			return true
+		}
+		if f := ci.Common().StaticCallee(); f != nil {
+			if _, ok := parseHelpers[f]; ok {
+				return true
+			}
+		}
+		return false
+	}
+	// the text argument of a parse site
+	parseText := func(ci ssa.CallInstruction) ssa.Value {
+		if f := ci.Common().StaticCallee(); f != nil {
+			if i, ok := parseHelpers[f]; ok {
+				args := callArgs(ci.Common())
+				if i < len(args) {
+					return args[i]
+				}
+				return nil
+			}
+		}
+		if len(ci.Common().Args) >= 2 {
+			return ci.Common().Args[1]
+		}
+		return nil
+	}
+	for _, fn := range c.Implementations(rtIface, "Eval") {
+		if _, isHelper := parseHelpers[fn]; isHelper {
+			continue
+		}
+		if len(callSites(fn, isParseSite)) > 0 {
 			// the import runtime parses resolved files (C17), not literal text
 			if len(callSites(fn, func(_ string, ci ssa.CallInstruction) bool {
 				return ci.Common().IsInvoke() && ci.Common().Method.Name() == "Resolve"
@@ -184,7 +232,16 @@ func checkC14(c *Ctx, r *Result, tier string) {
 				}
 			}
 			n := callName(in)
-			return strings.HasSuffix(n, "parser.ParseWithRuntime") || strings.HasSuffix(n, "parser.Parse")
+			if strings.HasSuffix(n, "parser.ParseWithRuntime") || strings.HasSuffix(n, "parser.Parse") {
+				return true
+			}
+			// a helper that parses and evaluates: its result is evaluated data
+			if f := ci.Common().StaticCallee(); f != nil {
+				if _, ok := parseHelpers[f]; ok {
+					return true
+				}
+			}
+			return false
 		}
 		taint := taintOf(c, fn, isSource)
 		ord := newOrdinals()
@@ -198,9 +255,9 @@ func checkC14(c *Ctx, r *Result, tier string) {
 			var sinkArgs []ssa.Value
 			what := ""
 			switch {
-			case strings.HasSuffix(name, "parser.ParseWithRuntime") || strings.HasSuffix(name, "parser.Parse"):
-				if len(ci.Common().Args) >= 2 {
-					sinkArgs = []ssa.Value{ci.Common().Args[1]}
+			case isParseSite(name, ci):
+				if t := parseText(ci); t != nil {
+					sinkArgs = []ssa.Value{t}
 					what = "parsed as code"
 				}
 			case name == "strings.Index" || name == "strings.LastIndex" || name == "strings.Split" || name == "strings.SplitN" ||
@@ -238,9 +295,7 @@ func checkC14(c *Ctx, r *Result, tier string) {
 		r.Floor("R14a-sinks:"+key, nSinks, 2)
 
 		// R14c
-		for i, p := range callSites(fn, func(name string, _ ssa.CallInstruction) bool {
-			return strings.HasSuffix(name, "parser.ParseWithRuntime")
-		}) {
+		for i, p := range callSites(fn, isParseSite) {
 			site := fmt.Sprintf("%s#parse#%d", key, i)
 			pos := c.Pos(c.InstrPos(p))
 			ok := false
